@@ -215,8 +215,10 @@ class CSSNamespaceRule(cssrule.CSSRule):
                                 error=xml.dom.NoModificationAllowedErr)
 
             if wellformed:
-                self.namespaceURI = new['uri']
+                # may raise (keyword spelled in a way atkeyword rejects): first
                 self.atkeyword = new['keyword']
+                # same or first URI (checked above); seq is set below
+                self._namespaceURI = new['uri']
                 self._prefix = new['prefix']
                 self._setSeq(newseq)
 
